@@ -38,7 +38,7 @@ impl M {
             int: init.int.iter().rev().copied().collect(),
             float: init.float.iter().rev().map(|f| f.get()).collect(),
             bool: init.bool.iter().rev().copied().collect(),
-            exec: init.program.iter().rev().cloned().collect(),
+            exec: crate::vm::effective_program(init).into_iter().rev().collect(),
             caps: [init.caps.exec, init.caps.int, init.caps.float, init.caps.bool],
             out: String::new(),
             inputs,
